@@ -1322,7 +1322,10 @@ class StmtPrescriber:
 # clause keywords whose spelling never reaches the tree: safe to write in lower case (layout variation)
 CASE_FREE_KEYWORDS = {"SELECT", "FROM", "WHERE", "GROUP", "BY", "HAVING", "ORDER", "LIMIT", "OFFSET", "INSERT", "INTO", "VALUES", "UPDATE", "SET",
                       "DELETE", "RETURNING", "ON", "CONFLICT", "DO", "NOTHING", "CONSTRAINT", "WITH", "RECURSIVE", "AS", "JOIN", "INNER", "LEFT", "RIGHT",
-                      "FULL", "OUTER", "CROSS", "NATURAL", "USING", "DISTINCT", "MATERIALIZED", "NULLS", "FIRST", "LAST", "ASC", "DESC", "ROLLUP", "CUBE"}
+                      "FULL", "OUTER", "CROSS", "NATURAL", "USING", "DISTINCT", "MATERIALIZED", "NULLS", "FIRST", "LAST", "ASC", "DESC", "ROLLUP", "CUBE",
+                      # keywords whose spelling used to be copied into the tree; since repo a8df5c2 4f7af58 7e001b2 the parser stores the
+                      # canonical upper-case spelling (BinaryExpression.Operator, SetOperation.Operator, WindowFrame.Type)
+                      "AND", "OR", "LIKE", "ILIKE", "UNION", "EXCEPT", "INTERSECT", "ROWS", "RANGE"}
 
 
 def lower_clause_keywords(words):
